@@ -32,12 +32,14 @@ def reg_common(addr, length, port="Device", cachable=None, access=None, invalida
     return s
 
 
-def int_reg(name, addr, length, sign=None, endian=None, **kw):
+def int_reg(name, addr, length, sign=None, endian=None, representation=None, **kw):
     s = reg_common(addr, length, **kw)
     if sign:
         s += el("Sign", sign)
     if endian:
         s += el("Endianess", endian)
+    if representation:
+        s += el("Representation", representation)
     return '<IntReg Name="%s">%s</IntReg>' % (name, s)
 
 
